@@ -436,6 +436,26 @@ instance decGoodRun (m0 : Spec) : (fl : Bytes → Flag) → (ops : List Op) → 
       have := decGoodRun m0 fl' rest
       decidable_of_iff (GoodRun m0 fl' rest) (by simp [GoodRun, h])
 
+/-- a history: batches of buffered operations, each followed by `Save` and the write of its list
+(every batch starts with an empty cache, as `Save` leaves it). `none` = a Save returned an error. -/
+def runSaves (db : TDB) : List (List Op) → Option (TDB × List (List Res))
+  | [] => some (db, [])
+  | b :: rest =>
+    match saveKVs (run { db := db } b).1 with
+    | none => none
+    | some kvs => (runSaves (applyKVs db kvs) rest).map (fun p => (p.1, (run { db := db } b).2 :: p.2))
+
+def specSaves (m : Spec) : List (List Op) → Spec × List (List Res)
+  | [] => (m, [])
+  | b :: rest =>
+    let p := specSaves (specRun m b).1 rest
+    (p.1, (specRun m b).2 :: p.2)
+
+/-- every batch is a good run with respect to the map at its own last save. -/
+def GoodBatches (m : Spec) : List (List Op) → Prop
+  | [] => True
+  | b :: rest => GoodRun m (fun _ => .fresh) b ∧ GoodBatches (specRun m b).1 rest
+
 /-- every record of the db is a data record or an index record (holding the primary key) of a
 non-empty primary key without the separator — what `Save` writes. -/
 def Shape (db : TDB) : Prop :=
